@@ -144,6 +144,8 @@ pub fn check(prog: &Program, ex: &Execution, cfg: &OracleCfg) -> OracleOut {
 
     // ---- possibly dropped sends, from the hook log ----
     let mut dropped: HashSet<(usize, usize)> = HashSet::new();
+    // forced commands (commit / cancel) that were parked in the sender's overflow list
+    let mut parked: HashSet<(usize, usize)> = HashSet::new();
     {
         let mut cur: HashMap<usize, (usize, usize, bool)> = HashMap::new(); // lt -> (top, j, forced)
         let mut count: HashMap<(usize, usize), usize> = HashMap::new(); // (lt, top) -> sends seen
@@ -166,7 +168,14 @@ pub fn check(prog: &Program, ex: &Execution, cfg: &OracleCfg) -> OracleOut {
                     if let Some((top, j, forced)) = cur.get(&ev.lt) {
                         if !*forced {
                             dropped.insert((*top, *j));
+                        } else {
+                            parked.insert((*top, *j));
                         }
+                    }
+                }
+                Point::Park { .. } => {
+                    if let Some((top, j, _)) = cur.get(&ev.lt) {
+                        parked.insert((*top, *j));
                     }
                 }
                 _ => {}
@@ -544,12 +553,23 @@ pub fn check(prog: &Program, ex: &Execution, cfg: &OracleCfg) -> OracleOut {
                 });
                 let surplus = rs_t.len() - deliverable.len();
                 if deliverable.is_empty() {
+                    // recorded finding: the cancel was parked in the cancelling thread's overflow
+                    // list (full ring) and the root was finished by another thread, whose commit
+                    // reached the collector first
+                    let overtaken = es_t.iter().any(|i| {
+                        let t = &m.traces[exps[*i].trace];
+                        match (t.drop_send, t.cancel_op, t.finish_op) {
+                            (Some(d), Some(co), Some(fo)) => parked.contains(&send_time(prog, d)) && m.ops[co].thread != m.ops[fo].thread,
+                            _ => false,
+                        }
+                    });
                     match forb {
                         Some(c) => v(
                             &mut out,
                             c,
                             match c {
                                 Cat::UnexpectedUnsampled => "unsampled-delivered",
+                                Cat::UnexpectedCancelled if overtaken => "parked-cancel-overtaken-cross-thread",
                                 Cat::UnexpectedCancelled => "cancelled-delivered",
                                 _ => "delivered-without-root-finish",
                             },
@@ -828,6 +848,16 @@ pub fn check(prog: &Program, ex: &Execution, cfg: &OracleCfg) -> OracleOut {
             }
         }
         want.sort_unstable();
+        // commits and cancels are never dropped, so the entries are exact even after a full-queue
+        // episode; the other counters are only exact when nothing was dropped
+        if !dropped.is_empty() {
+            if st.active_collect_ids.iter().any(|id| !want.contains(id)) {
+                v(&mut out, Cat::Stats, "active-collectors", format!("after a full-queue episode the collector still holds entries for collect ids {:?}, expected a subset of {:?}", st.active_collect_ids, want));
+            }
+            if st.scratch_len != 0 {
+                v(&mut out, Cat::Stats, "scratch-not-empty", format!("{} commands left in the collector's scratch vectors", st.scratch_len));
+            }
+        }
         if dropped.is_empty() {
             if st.active_collect_ids != want {
                 v(&mut out, Cat::Stats, "active-collectors", format!("collector holds entries for collect ids {:?}, expected {:?}", st.active_collect_ids, want));
@@ -1001,6 +1031,26 @@ fn check_attachments(
                 // attachments recorded in the same span set as their target: always together
                 for a in &ml.atts {
                     atts.push((a, true));
+                }
+            }
+        }
+        // default configuration, stepped schedules: an attachment sent through another queue may be
+        // consumed by a later cycle than the one that consumed (and reported) its target, although
+        // it was made first. The statement quantifies over whole cycles falling between attachment
+        // and finish, so such an attachment is not demanded (at most once still is).
+        if !cfg.cancelable {
+            if let Some(sc) = e.submit.and_then(|s| consumed.get(&s).copied()) {
+                for (a, must) in atts.iter_mut() {
+                    let carrier = match (a.route, a.line) {
+                        (Route::Handle, _) => a.submit_send,
+                        (_, Some(li)) => m.lines[li].submit_send,
+                        _ => None,
+                    };
+                    if let Some(ac) = carrier.map(|x| send_time(prog, x)).and_then(|s| consumed.get(&s).copied()) {
+                        if ac > sc {
+                            *must = false;
+                        }
+                    }
                 }
             }
         }
